@@ -461,12 +461,13 @@ func borderImageWidth(_ *ComputedStyle, _ pr.KnownProp, _value pr.CssProperty) p
 
 // Compute the “border-image-outset“ property.
 func borderImageOutset(computer *ComputedStyle, _ pr.KnownProp, _value pr.CssProperty) pr.CssProperty {
-	values := _value.(pr.Values)
-	for i, value := range values {
+	// the declared value is shared between elements: do not write into it
+	values := make(pr.Values, len(_value.(pr.Values)))
+	for i, value := range _value.(pr.Values) {
 		if value.Unit == pr.Scalar {
 			values[i] = value
 		} else {
-			values[i] = length_(computer, value, 0, false)
+			values[i] = length_(computer, value, -1, false)
 		}
 	}
 
